@@ -461,7 +461,7 @@ func dumpTo(b *strings.Builder, n *Node) {
 }
 
 // firstDiff walks two canonical trees in pre-order and describes the first difference
-// as (class of the parent, class wanted, class got) for the signature.
+// as (class wanted, class got) for the signature.
 func firstDiff(want, got *Node) (string, bool) {
 	return firstDiffUnder("top", want, got)
 }
@@ -478,7 +478,16 @@ func cls(n *Node) string {
 
 func firstDiffUnder(under string, want, got *Node) (string, bool) {
 	if head(want) != head(got) || len(want.A) != len(got.A) {
-		return "under=" + under + "|want=" + cls(want) + "|got=" + cls(got), true
+		// a node of the parent's own level on one side only: the grouping among equals
+		// (associativity) differs; otherwise two levels are ordered differently
+		if under != "top" && (cls(want) == under) != (cls(got) == under) {
+			return "assoc=" + under, true
+		}
+		return "want=" + cls(want) + "|got=" + cls(got), true
+	}
+	if len(want.A) == 2 && dump(want.A[0]) != dump(got.A[0]) &&
+		dump(want.A[0]) == dump(got.A[1]) && dump(want.A[1]) == dump(got.A[0]) {
+		return "operands-swapped=" + opName(want), true
 	}
 	for i := range want.A {
 		if d, ok := firstDiffUnder(cls(want), want.A[i], got.A[i]); ok {
